@@ -1140,7 +1140,7 @@ TABLE["C05"] += [
       (MW, "                    id_val[1].name, idx, id_val[1].to_cpp())", "                    id_val[0] + id_val[1].name, idx, id_val[1].to_cpp())")),
 ]
 TABLE["C02"] += [
-    B("scoped-component-replaced-by-the-qualified-spelling", {"S9"},
+    B("scoped-component-replaced-by-the-qualified-spelling", {"S9", "S14"},
       (HP, "            instantiation.name if part == scoped_template else part", "            instantiation.to_cpp() if part == scoped_template else part")),
 ]
 TABLE["C01"] += [
